@@ -35,8 +35,8 @@ var randPool = []string{
 	":stop:stop", "b:stop:stop", "a:", "a:stop:stop:stop",
 }
 
-// current-entry options: 0 absent, 1 running cfg0, 2 running cfg1, 3 not running cfg0
-// desired options: 0 nil/absent, 1 cfg0, 2 cfg1, 3 cfg2
+// current-entry options: -1 absent, otherwise 2*cfg + (1 if running)
+// desired options: -1 nil/absent, otherwise the cfg number
 
 func collides(ids []string) bool {
 	set := map[string]bool{}
@@ -56,12 +56,8 @@ func buildCur(ids []string, opt map[string]int, trace bool) *httpcluster.VerifEn
 	var present []string
 	cm := map[string]int{}
 	for _, id := range ids {
-		switch opt[id] {
-		case 1, 3:
-			cm[id] = 0
-			present = append(present, id)
-		case 2:
-			cm[id] = 1
+		if o, ok := opt[id]; ok && o >= 0 {
+			cm[id] = o / 2
 			present = append(present, id)
 		}
 	}
@@ -70,7 +66,7 @@ func buildCur(ids []string, opt map[string]int, trace bool) *httpcluster.VerifEn
 		emit("new", "-", dumpCmap(present, cm), "-", dumpEntries(v))
 	}
 	for idx, id := range ids {
-		if opt[id] == 1 || opt[id] == 2 {
+		if o, ok := opt[id]; ok && o >= 0 && o%2 == 1 {
 			ctx, cancel := context.WithCancel(bg)
 			in := dumpEntries(v)
 			nv := v.SetRuntime(id, &mockServer{inst: idx}, ctx, cancel)
@@ -93,9 +89,10 @@ func buildCur(ids []string, opt map[string]int, trace bool) *httpcluster.VerifEn
 func desiredOf(ids []string, opt map[string]int, withNil bool) (present []string, cm map[string]int) {
 	cm = map[string]int{}
 	for _, id := range ids {
+		o, ok := opt[id]
 		switch {
-		case opt[id] >= 1:
-			cm[id] = opt[id] - 1
+		case ok && o >= 0:
+			cm[id] = o
 			present = append(present, id)
 		case withNil:
 			cm[id] = -1
@@ -197,7 +194,7 @@ func plannerExhaustive() {
 		curOpt := map[string]int{}
 		x := c
 		for _, id := range ids {
-			curOpt[id] = x % 4
+			curOpt[id] = []int{-1, 1, 3, 0}[x%4]
 			x /= 4
 		}
 		for d := 0; d < nd; d++ {
@@ -208,7 +205,7 @@ func plannerExhaustive() {
 			desOpt := map[string]int{}
 			y := d
 			for _, id := range ids {
-				desOpt[id] = y % 3
+				desOpt[id] = y%3 - 1
 				y /= 3
 			}
 			trace := idx%97 == 0
@@ -249,7 +246,7 @@ func plannerRandom() {
 		for s := 0; s < steps; s++ {
 			desOpt := map[string]int{}
 			for _, id := range ids {
-				desOpt[id] = r.Intn(4)
+				desOpt[id] = r.Intn(4) - 1
 			}
 			present, cm := desiredOf(ids, desOpt, r.Bool())
 			des := httpcluster.VerifNewEntries(toConfigMap(present, cm))
@@ -292,7 +289,8 @@ func plannerRandom() {
 	}
 }
 
-// corpus lines:  xID=curopt,xID=curopt|xID=desopt,...   (options as above)
+// corpus lines:  xID=r<cfg>|i<cfg>,...|xID=<cfg>|-,...   (current: running / not running with
+// configuration number cfg; desired: configuration number or - for a nil config)
 func plannerCorpus() {
 	defer out.Flush()
 	f, err := os.Open(*file)
@@ -323,7 +321,18 @@ func plannerCorpus() {
 				t := strings.SplitN(kv, "=", 2)
 				id := unhx(t[0])
 				var o int
-				fmt.Sscanf(t[1], "%d", &o)
+				switch {
+				case t[1] == "-":
+					o = -1
+				case t[1][0] == 'r':
+					fmt.Sscanf(t[1][1:], "%d", &o)
+					o = 2*o + 1
+				case t[1][0] == 'i':
+					fmt.Sscanf(t[1][1:], "%d", &o)
+					o = 2 * o
+				default:
+					fmt.Sscanf(t[1], "%d", &o)
+				}
 				m[id] = o
 				if !seen[id] {
 					seen[id] = true
@@ -336,7 +345,7 @@ func plannerCorpus() {
 		desOpt := parse(parts[1])
 		old := *repeat
 		*repeat = 40
-		p := oneBuild(ids, curOpt, desOpt, false, true)
+		p := oneBuild(ids, curOpt, desOpt, true, true)
 		*repeat = old
 		next := 100
 		execute(p, &next, nil)
